@@ -93,6 +93,11 @@ def check_region(ctx, case, L, region, pts, use_flags, light=False):
                 ctx.unexpected(o, "get_index_of")
         else:
             idx = [int(k) for k in o.value]
+            if any(not (0 <= k < len(L.cells)) for k in idx):
+                bad = next(j for j, k in enumerate(idx) if not (0 <= k < len(L.cells)))
+                ctx.violation("lookup_returned_index_out_of_range", {"pt": pts[un[bad]], "got": idx[bad], "n_cells": len(L.cells)}, mini(un[bad]))
+                idx = None
+        if idx is not None:
             for i, k in zip(un, idx):
                 _, cands = cls[i]
                 if cands and k not in cands:
